@@ -114,7 +114,8 @@ def gen_instant(rng, toks):
                        rng.choice([0, 7, 59]), rng.choice([0, 100000, 120000, 123000, 999000, 5000]))
 
 
-STRS = ['x', 'hello world', 'é', 'ß∂', 'a"b', "it's", ' lead', 'NULLISH', '0', 'true', '雪', 'c1\x80ctl', 'apc\x9fx', 'ÿþ']
+STRS = ['x', 'hello world', 'é', 'ß∂', 'a"b', "it's", ' lead', 'NULLISH', '0', 'true', '雪', 'c1\x80ctl', 'apc\x9fx', 'ÿþ',
+        'Unit #5 Riverside', '#start', 'a#b', '// note', '-- x', '%done', "'single'", 'back\\slash', '1e5', '0x10']
 
 
 def gen_table(rng):
@@ -128,6 +129,7 @@ def gen_table(rng):
              for _ in range(ncols)]
     cols, data, texts = [], [], []
     titled = rng.random() < 0.3
+    whole_numbers = rng.random() < 0.3      # number columns whose values happen to be whole
     for i, k in enumerate(kinds):
         name = rng.choice(['a', 'b', 'col', 'x y', 'Name', 'é', 'n_1']) + str(i)
         # column 0 is never null: a row of only nulls is a blank line, which CSV cannot express
@@ -152,7 +154,8 @@ def gen_table(rng):
         elif k == 'number':
             col['datatype'] = rng.choice(['number', 'double', 'decimal'])
             for _ in range(nrows):
-                v = None if rng.random() < null_p else rng.choice([0.0, -1.5, 1e10, 0.1, 2.0, round(rng.random() * 100, 3)])
+                v = None if rng.random() < null_p else (rng.choice([0.0, 2.0, 17.0, -3.0, 1e10]) if whole_numbers else
+                                                        rng.choice([0.0, -1.5, 1e10, 0.1, 2.0, round(rng.random() * 100, 3)]))
                 vals.append(v)
                 txt.append('' if v is None else repr(v))
         elif k == 'string':
@@ -206,7 +209,9 @@ def gen_table(rng):
         data.append(vals)
         texts.append(txt)
     return dict(delim=delim, enc=enc, header=header, hdr_style=hdr_style, cols=cols,
-                data=data, texts=texts, nrows=nrows, kinds=kinds)
+                data=data, texts=texts, nrows=nrows, kinds=kinds,
+                # reader options that must not change what DECLARED columns load as
+                reader_kw=rng.choice([{}, {}, {'upgrade_possible_ints': True}]))
 
 
 SLOT = [0]
@@ -259,7 +264,7 @@ def load_table(tb, workdir):
         import warnings
         with warnings.catch_warnings():
             warnings.simplefilter('ignore')      # pandas: fallback to the python engine for multi-byte separators
-            df = csv2pandas(csvp, mdpath=mdp, verbosity=0)
+            df = csv2pandas(csvp, mdpath=mdp, verbosity=0, **tb.get('reader_kw', {}))
             df2 = None
             if 'tables' not in md and tb['header'] and not any('titles' in c for c in tb['cols']):
                 import pandas as pd
